@@ -543,7 +543,7 @@ class _NumericOperationsImpl(OperationsBlock):
 
         ret = namedtuple("ret", ["values", "indices", "inverse_indices", "counts"])
 
-        values = from_corearray(ret_opd[0])
+        values = from_corearray(ret_opd[0]).astype(x.dtype)
         indices = from_corearray(indices[ret_opd[1]])
         inverse_indices = ndx.reshape(from_corearray(ret_opd[2]), nda.shape(x))
         counts = from_corearray(ret_opd[3])
